@@ -208,13 +208,60 @@ def r3_effects(ctx, fields, setters, pairing):
             elif name == "fullmove_clock":
                 full_ok = v[0] == "bin" and v[1] == "Add" and {("f", ("*", ("param", 1)), "fullmove_clock"), ("f", ("*", ("param", 1)), "turn")} == {v[2], v[3]}
                 full_block = (b, si)
-    reset = [w for w in clock_writes if w[0] is True]
-    inc = [w for w in clock_writes if w[0] is False]
-    ok = len(reset) == 1 and reset[0][1][0] == "c" and reset[0][1][1] == 0
-    ctx.ob(rid, "make|clock-reset-to-zero", ok, "" if ok else "under is_halfmove_reset make assigns %s to halfmove_clock" % [show(w[1]) for w in reset], ctx.where(mk))
-    ok = len(inc) == 1 and inc[0][1][0] == "bin" and inc[0][1][1] == "Add" and ("c", 1, "u32", None) in (inc[0][1][2], inc[0][1][3]) and ("f", ("*", ("param", 1)), "halfmove_clock") in (inc[0][1][2], inc[0][1][3])
-    ctx.ob(rid, "make|clock-incremented-by-one", ok, "" if ok else "without reset make assigns %s to halfmove_clock (expected exactly one assignment, of halfmove_clock + 1; unconditional or other-branch assignments: %s)" % ([show(w[1]) for w in inc], [show(w[1]) for w in clock_writes if w[0] is None]), ctx.where(mk))
-    ctx.ob(rid, "make|ep-square-from-move", ep_ok, "" if ep_ok else "make does not assign en_passant_square_shift from the move's next-e.p. field", ctx.where(mk))
+    # the half-move clock and the e.p. square after make, read off a decision table over the reset flag
+    # (inkalint/semtable.py): whichever way the update is written (two assignments under an if, one conditional
+    # assignment, a multiplication by a flag ...)
+    from ..semtable import explore, evaluate, TooBig, NeedVar, Opaque
+    from ..slice import Slicer
+    CLOCK = ("f", ("*", ("param", 1)), "halfmove_clock")
+    EP = ("f", ("*", ("param", 1)), "en_passant_square_shift")
+
+    def var_of(t):
+        if t[0] == "call" and t[1] == MF.MOVE + "is_halfmove_reset":
+            return "reset"
+        if t == CLOCK:
+            return "clock"
+        return None
+    seeds = [b for b in sorted(cfg.reach) for st in mk["blocks"][b]["stmts"] if st["dst"] is not None and st["dst"]["p"] and isinstance(st["dst"]["p"][-1], dict) and st["dst"]["p"][-1].get("name") in ("halfmove_clock", "en_passant_square_shift")]
+    sl = Slicer(mk)
+    sl.backward_from_blocks(seeds)
+    lvs = None
+    try:
+        lvs = explore(mk, var_of, {"reset": [0, 1], "clock": [10]}, relevant=set(sl.last_blocks), max_leaves=4000)
+    except TooBig as e:
+        ctx.lost(rid, "make as a decision table over the reset flag (%s)" % e)
+    if lvs:
+        res = {0: set(), 1: set()}
+        eps = set()
+        for lf in lvs:
+            wv = [v for (pl, v, b) in lf.pe.writes if pl == CLOCK]
+            we = [v for (pl, v, b) in lf.pe.writes if pl == EP]
+            eps.add(we[-1] if we else None)
+            for r_ in ([lf.env["reset"]] if "reset" in lf.env else [0, 1]):
+                if not wv:
+                    res[r_].add("unchanged")
+                    continue
+                try:
+                    res[r_].add(evaluate(wv[-1], var_of, {"reset": r_, "clock": 10}))
+                except (NeedVar, Opaque):
+                    res[r_].add("?")
+        for r_, want, key, text in ((1, 0, "make|clock-reset-to-zero", "a move flagged as a half-move reset"), (0, 11, "make|clock-incremented-by-one", "a move without the reset flag")):
+            if "?" in res[r_]:
+                # a value this table cannot evaluate: if it is not even computed from the board's clock (for a move
+                # that does not reset it) it cannot be clock + 1; otherwise no verdict
+                foreign = [v for lf in lvs for (pl, v, b) in lf.pe.writes if pl == CLOCK and lf.env.get("reset", r_) == r_ and CLOCK not in list(leaves(v)) and v[0] != "c"]
+                if r_ == 0 and foreign:
+                    ctx.ob(rid, key, False, "for %s make sets the half-move clock to %s, which is not computed from the board's clock (expected halfmove_clock + 1)" % (text, show(foreign[0])[:120]), ctx.where(mk))
+                else:
+                    ctx.lost(rid, "the value make gives the half-move clock for %s" % text)
+                continue
+            ok = res[r_] == {want}
+            ctx.ob(rid, key, ok, "" if ok else "for %s make turns a half-move clock of 10 into %s (expected %d)" % (text, sorted(map(str, res[r_])), want), ctx.where(mk))
+        ep_ok = all(e is not None and e[0] == "call" and getter_of.get(e[1]) == "get_next_en_passant_square" for e in eps)
+        if not ep_ok and all(e is not None and any(x[0] == "call" and getter_of.get(x[1]) == "get_next_en_passant_square" for x in [e] + list(leaves(e))) for e in eps):
+            ctx.lost(rid, "the e.p. square make stores (derived from the move's next-e.p. field through a computation)")
+        else:
+            ctx.ob(rid, "make|ep-square-from-move", ep_ok, "" if ep_ok else "make does not assign en_passant_square_shift from the move's next-e.p. field", ctx.where(mk))
     from . import c03
     run_fn = c03.side_number_runner(ctx, rid, ("make",))
     if run_fn is not None:
